@@ -261,3 +261,7 @@ Atomic<'static, ItemType, BUFFER_SIZE, MAX_STREAMS> {
     type ItemType            = ItemType;
     type DerivedItemType     = Arc<ItemType>;
 }
+
+/// verification hook (compiled only under `cargo kani` or `--cfg reactive_mutiny_verif`): harnesses live outside this repository
+#[cfg(any(kani, reactive_mutiny_verif))]
+pub(crate) mod verif_hooks { include!(concat!(env!("REACTIVE_MUTINY_VERIF_DIR"), "/kani/multi_arc_atomic.rs")); }
